@@ -428,6 +428,8 @@ namespace {
             if (kind == "try")
                for (auto& hb : *t.at(2).a) {
                   auto h = b->new_handler(name(), lex.int_type());
+                  located(h);                         // the handler and the block that new_handler made for it carry locations too
+                  located(&h->body());
                   h->body().add_stmt(build(hb, h->body().lexical_region));
                }
             return *b;
@@ -622,7 +624,7 @@ namespace {
             // every statement implementation keeps its location in a public member of impl::Stmt<>
             bool set = false;
 #define TRY(K) if (not set) if (auto p = dynamic_cast<impl::K*>(st)) { p->src_locus = loc; set = true; }
-            TRY(Expr_stmt) TRY(Var) TRY(Typedecl) TRY(Fundecl) TRY(Break) TRY(Return) TRY(Block) TRY(If) TRY(While) TRY(Do) TRY(Switch) TRY(For) TRY(For_in) TRY(Labeled_stmt)
+            TRY(Expr_stmt) TRY(Var) TRY(Typedecl) TRY(Fundecl) TRY(Break) TRY(Return) TRY(Block) TRY(If) TRY(While) TRY(Do) TRY(Switch) TRY(For) TRY(For_in) TRY(Labeled_stmt) TRY(Handler) TRY(handler_block)
 #undef TRY
             if (set) locs.push_back({file, ln, col});
          }
